@@ -3760,6 +3760,18 @@ impl RaftNode {
 
         let persistent = self.persistent.read();
 
+        // The entry before `next_idx` may be compacted away. The consistency check cannot be
+        // built for such a position, and a request with prev (0, 0) is accepted by every
+        // follower and written at the wrong place. Anchor the request at the oldest entry still
+        // held instead: a follower that does not hold that entry rejects it and has to be
+        // caught up with a snapshot (`needs_snapshot_for_follower`).
+        let first_held = persistent.log_base_index + 1;
+        let next_idx = if persistent.log_base_index > 0 && next_idx <= first_held {
+            first_held + 1
+        } else {
+            next_idx
+        };
+
         let (prev_log_index, prev_log_term) = if next_idx <= 1 {
             (0, 0)
         } else {
